@@ -722,6 +722,13 @@ func (e *Env) evalCall(n *ECall) (Val, error) {
 			return Val{}, err
 		}
 		return f.zeroVal(t), nil
+	case "box":
+		// box(T): the zero value of T as an interface value (context keys of struct type)
+		t, err := f.e.resolveType(e.pkg, n.TArgs[0])
+		if err != nil {
+			return Val{}, err
+		}
+		return f.makeIface(&bstate{reach: "true", heap: e.heap, seg: f.newSeg()}, f.zeroVal(t), t), nil
 	}
 	if id.Name == "atlock" && len(n.Args) == 1 {
 		// the value of an expression right after the function's (last) lock acquisition:
@@ -790,6 +797,25 @@ func (e *Env) evalCall(n *ECall) (Val, error) {
 		return boolVal(app("str.suffixof", args[1].Tm, args[0].Tm)), nil
 	case "itoa":
 		return Val{K: KString, T: types.Typ[types.String], Tm: app("str.from_int", args[0].Tm)}, nil
+	case "asany":
+		a := args[0]
+		if a.T == nil {
+			return Val{}, fmt.Errorf("asany of an untyped value")
+		}
+		return f.makeIface(&bstate{reach: "true", heap: e.heap, seg: f.newSeg()}, a, a.T), nil
+	case "isfresh":
+		// allocated by this very call (not visible to anybody else before it returns)
+		a := args[0]
+		if a.K != KRef {
+			return Val{}, fmt.Errorf("isfresh of a non-reference")
+		}
+		t := app("<", a.Tm, "0")
+		if a.T != nil {
+			if _, ok := a.T.Underlying().(*types.Slice); ok {
+				t = and(t, app("<", f.sliceBase(a.Tm), "0"))
+			}
+		}
+		return boolVal(t), nil
 	case "isnil":
 		a := args[0]
 		if a.K == KAny {
